@@ -13,10 +13,10 @@ def build():
     inc = "-I" + os.path.join(REPO, "sbepp/src")
 
     def jobs(d):
-        base = ["g++", "-std=c++17", "-O1", "-g", inc, SRC]
+        # checked: C++17 (memcpy/byteswap and iterator-pair paths); unchecked: C++20 (bit_cast, std::ranges::copy in assign_range)
         return [
-            ("dynarr_checked", base + ["-DSBEPP_ENABLE_ASSERTS_WITH_HANDLER", "-o", "dynarr_checked"]),
-            ("dynarr_unchecked", base + ["-DSBEPP_DISABLE_ASSERTS", "-o", "dynarr_unchecked"]),
+            ("dynarr_checked", ["g++", "-std=c++17", "-O1", "-g", inc, SRC, "-DSBEPP_ENABLE_ASSERTS_WITH_HANDLER", "-o", "dynarr_checked"]),
+            ("dynarr_unchecked", ["g++", "-std=c++20", "-O1", "-g", inc, SRC, "-DSBEPP_DISABLE_ASSERTS", "-o", "dynarr_unchecked"]),
         ]
 
     return Builder().build("dynarr", h, jobs)
